@@ -65,8 +65,38 @@ def strip(t):
             t = t.__supertype__
         elif type(t).__name__ == "TypeAliasType":
             t = t.__value__
+        elif t is te.LiteralString or t is getattr(typing, "LiteralString", None):
+            return str
         else:
             return t
+
+
+def subst(t, tvmap):
+    """Substitute type variables inside a type expression (``List[T]`` with ``{T: date}`` -> ``List[date]``)."""
+    if not tvmap:
+        return t
+    try:
+        if t in tvmap:
+            return tvmap[t]
+    except TypeError:
+        return t
+    params = getattr(t, "__parameters__", None)
+    if params and typing.get_origin(t) is not None:
+        try:
+            return t[tuple(tvmap.get(p, p) for p in params)]
+        except Exception:
+            return t
+    return t
+
+
+def own_tvmap(base, a, tvmap):
+    """Type variables of a generic class (dataclass, NamedTuple, TypedDict) bound by subscription or subclassing,
+    with the arguments themselves resolved in the enclosing scope."""
+    tv = dict(inherited_tvmap(base))
+    params = getattr(base, "__parameters__", ())
+    for p, x in zip(params, a):
+        tv[p] = subst(x, tvmap)
+    return tv
 
 
 def is_namedtuple(t):
@@ -124,17 +154,14 @@ def info(t, tvmap=None):
         tv = {te.Self: base}
         if hasattr(typing, "Self"):
             tv[typing.Self] = base
-        tv.update(inherited_tvmap(base))
-        params = getattr(base, "__parameters__", ())
-        for p, x in zip(params, a):
-            tv[p] = x
+        tv.update(own_tvmap(base, a, tvmap))
         return TI("dataclass", base, origin=base, args=a, extra=tv)
     if issubclass(base, os.PathLike) or base is os.PathLike:
         return TI("path", pathlib.PurePath if base is os.PathLike else base)
     if is_namedtuple(base):
-        return TI("namedtuple", base)
+        return TI("namedtuple", base, args=a, extra=own_tvmap(base, a, tvmap))
     if is_typeddict(base):
-        return TI("typeddict", base)
+        return TI("typeddict", base, args=a, extra=own_tvmap(base, a, tvmap))
     if base is tuple:
         if not a:
             if t is tuple or t is typing.Tuple:
@@ -192,6 +219,15 @@ def inherited_tvmap(cls):
             for p, x in zip(getattr(o, "__parameters__", ()), typing.get_args(b)):
                 out.setdefault(p, out.get(x, x) if isinstance(x, typing.TypeVar) else x)
     return out
+
+
+def scope(ti, tvmap):
+    """Type-variable scope inside a generic NamedTuple / TypedDict / dataclass node."""
+    if not ti.extra:
+        return tvmap
+    tv = dict(tvmap or {})
+    tv.update(ti.extra)
+    return tv
 
 
 def dc_fields(cls, tvmap=None):
